@@ -148,7 +148,12 @@ def df_subset(inp, W):
         a, k = _mk_condition(W, data, inp["cond"])
         out = getattr(data, m)(*a, **k)
     elif m in ("slice", "slice_off"):
-        out = getattr(data, m)(rows=inp["rows"], cols=inp.get("cols"))
+        rows = inp["rows"]
+        if rows is not None and inp.get("rows_form", "array") != "array":
+            # the same positions as a list or as a one-shot iterator (the library accepts any iterable)
+            rows = [x for x in rows]
+            if inp["rows_form"] == "iter": rows = (x for x in rows)
+        out = getattr(data, m)(rows=rows, cols=inp.get("cols"))
     elif m in ("head", "tail"):
         out = getattr(data, m)(inp["n"])
     elif m == "drop_na":
@@ -293,7 +298,8 @@ def df_reshape(inp, W):
     elif m == "rename":
         out = data.rename(**{to: fm for to, fm in inp["pairs"]})
     elif m == "colnames":
-        data.colnames = inp["names"]
+        form = inp.get("names_form", "list")
+        data.colnames = tuple(inp["names"]) if form == "tuple" else (x for x in inp["names"]) if form == "iter" else inp["names"]
         return {"out": data, "recv": None, "others": others, "alias": []}
     else:
         raise ValueError(m)
@@ -478,7 +484,7 @@ def _lod_call(inp, W, data):
     elif m == "append":
         out = data.append(inp["item"])
     elif m == "extend":
-        out = data.extend(inp["other"])
+        out = data.extend((x for x in inp["other"]) if inp.get("other_form") == "iter" else inp["other"])
     elif m == "insert":
         out = data.insert(inp["index"], inp["item"])
     elif m == "add":
@@ -1208,6 +1214,12 @@ def dt_op(inp, W):
             getattr(x.dt, fn)(*args, **kwargs)
             y = x[::-1]
             out = getattr(y.dt, fn)(*args, **kwargs)
+        elif inp.get("proxy") == "after_edit":
+            # the proxy is used, the vector is then overwritten in place, and the proxy is used again
+            v = inp["before"]
+            getattr(v.dt, fn)(*args, **kwargs)
+            for i in range(len(x)): v[i] = x[i]
+            out = getattr(v.dt, fn)(*args, **kwargs)
         elif inp.get("proxy"):
             out = getattr(x.dt, fn)(*args, **kwargs)
         else:
@@ -1231,7 +1243,13 @@ def regex_op(inp, W):
         kw = {"flags": inp["flags"]} if inp.get("flags") else {}
         if inp.get("scalar"):
             return {"out": getattr(rx, fn)(*pos, inp["scalar_value"], **kw)}
-        if inp.get("proxy"):
+        if inp.get("proxy") == "after_edit":
+            # the proxy is used, the vector is then overwritten in place, and the proxy is used again
+            v = inp["before"]
+            getattr(v.re, fn)(*pos, **kw)
+            for i in range(len(x)): v[i] = x[i]
+            out = getattr(v.re, fn)(*pos, **kw)
+        elif inp.get("proxy"):
             out = getattr(x.re, fn)(*pos, **kw)
         else:
             out = getattr(rx, fn)(*pos, x, **kw)
